@@ -54,7 +54,7 @@ static void verify_with_carquet(const hist_t* h, const uint8_t* img, size_t len,
         if (carquet_schema_find_column(sc, h->cols[c].name) != c && h->ncols == 1) mc_fail("schema.find-column", "find_column(%s) = %d", h->cols[c].name, carquet_schema_find_column(sc, h->cols[c].name));
     }
     /* partition into non-empty row groups */
-    int exp_groups[8], neg = 0; for (int g = 0; g < h->nrg; g++) if (h->rg_rows[g] > 0) exp_groups[neg++] = g;
+    int exp_groups[20], neg = 0; for (int g = 0; g < h->nrg; g++) if (h->rg_rows[g] > 0) exp_groups[neg++] = g;
     int nrg = carquet_reader_num_row_groups(rd); int got_idx[64], ngot = 0;
     for (int g = 0; g < nrg && ngot < 64; g++) { carquet_row_group_metadata_t md; if (carquet_reader_row_group_metadata(rd, g, &md) != CARQUET_OK) { mc_fail("row-groups.metadata", "row group %d", g); continue; } if (md.num_rows > 0) got_idx[ngot++] = g; }
     bool part_ok = ngot == neg;
@@ -242,6 +242,17 @@ static void enumerate(void) {
         h.N = 7; h.nrg = 2; h.rg_rows[0] = 4; h.rg_rows[1] = 3; for (int q = 0; q < 3; q++) { h.mask[q] = h.cols[q].opt ? (0x29u << q) & 0x7f : 0; h.comp[q] = 0x12u >> q; } h.interleave = il; h.page_sel = 1;
         if (!NEXT(&h, hkey(&h, 6), true)) continue;
         run_case(&h, true); ref_arena_free(&RA);
+    }
+    /* footer lists of 13..17 elements (the Thrift list header changes form at 15): columns, and row groups */
+    mc_stage("wide.13-to-17-columns.13-to-17-row-groups");
+    static const char* WN[] = { "w0", "w1", "w2", "w3", "w4", "w5", "w6", "w7", "w8", "w9", "w10", "w11", "w12", "w13", "w14", "w15", "w16", "w17" };
+    for (int n = 13; n <= 17; n++) for (int v = 0; v < 4; v++) {
+        memset(&h, 0, sizeof h);
+        if (v < 2) { h.ncols = n; for (int c = 0; c < n; c++) { h.cols[c] = TBL_KINDS[v ? (c * 5 + 1) % 14 : 2]; h.cols[c].name = WN[c]; h.mask[c] = h.cols[c].opt ? 0x2 : 0; } h.N = 3; h.nrg = 1; h.rg_rows[0] = 3; }
+        else { h.ncols = v - 1; for (int c = 0; c < h.ncols; c++) { h.cols[c] = TBL_KINDS[c ? 5 : 2]; h.cols[c].name = WN[c]; h.mask[c] = h.cols[c].opt ? 0x1249 : 0; } h.N = n; h.nrg = n; for (int g = 0; g < n; g++) h.rg_rows[g] = 1; }
+        h.page_sel = 2;
+        if (!NEXT(&h, hkey(&h, 7), true)) continue;
+        run_case(&h, false); ref_arena_free(&RA);
     }
 }
 int main(int argc, char** argv) { return mc_main(argc, argv, "rt", enumerate); }
